@@ -217,3 +217,77 @@ def lazy_cache_rule(repo: Repo, prop: str, rule_id: str, module_prefixes: Tuple[
                 r.ok(fn, f"self.{cache} depends on {deps or 'nothing mutable'}; every method that changes them resets it", key=key)
     r.note(f"{n_caches} hand-written lazy cache(s) found in the selected modules")
     return r
+
+
+# ---------------------------------------------------------------------------------------------------------------------
+def keyed_cache_rule(repo: Repo, prop: str, rule_id: str, module_prefixes: Tuple[str, ...], floor: int = 3) -> RuleRun:
+    """Caches that are filled on demand under a test on the cache itself - ``if len(self._c) != n: self._c = ...``,
+    ``if key not in self._c: self._c[key] = ...`` (the ``is None`` form is lazy_cache_rule's). Two things are examined:
+    (a) what is kept must not be computed from coordinates (``.position`` / ``.points``): nothing invalidates it when a vertex
+    moves, the same finder keeps answering for the old geometry; (b) a cached container must not be handed out itself: the
+    caller's ``result.update(...)`` changes what every later query returns."""
+    r = RuleRun(prop, rule_id, floor=floor, what="on-demand caches neither keep values computed from coordinates that can move nor hand out their own containers; instances: methods of the finder / query classes examined")
+    for fn in sorted(repo.all_functions(), key=lambda f: f.qualname):
+        short = fn.module.name[len("classy_blocks.") :] if fn.module.name.startswith("classy_blocks.") else fn.module.name
+        if fn.cls is None or not fn.params or fn.name == "__init__" or not any(short.startswith(p) for p in module_prefixes):
+            continue
+        selfname = fn.params[0]
+        problems = []
+        for n in ast.walk(fn.node):
+            if not isinstance(n, ast.If):
+                continue
+            tested = {x.attr for x in ast.walk(n.test) if isinstance(x, ast.Attribute) and isinstance(x.value, ast.Name) and x.value.id == selfname}
+            if not tested:
+                continue
+            for st in n.body:
+                for a in ast.walk(st):
+                    if not isinstance(a, ast.Assign):
+                        continue
+                    for t in a.targets:
+                        b = t
+                        while isinstance(b, ast.Subscript):
+                            b = b.value
+                        if isinstance(b, ast.Attribute) and isinstance(b.value, ast.Name) and b.value.id == selfname and b.attr in tested:
+                            cache = b.attr
+                            # (a) coordinates in the cached value (through locals and self-calls of this class, two levels)
+                            reads = []
+                            todo, seen = [a.value], set()
+                            depth = 0
+                            while todo and depth < 40:
+                                depth += 1
+                                e = todo.pop()
+                                for x in ast.walk(e):
+                                    if isinstance(x, ast.Attribute) and x.attr in GEOMETRY_ATTRS and isinstance(x.ctx, ast.Load):
+                                        reads.append(x)
+                                    if isinstance(x, ast.Name) and x.id not in seen:
+                                        seen.add(x.id)
+                                        for d in ast.walk(fn.node):
+                                            if isinstance(d, ast.Assign) and any(isinstance(tt, ast.Name) and tt.id == x.id for tt in d.targets):
+                                                todo.append(d.value)
+                                    if isinstance(x, ast.Call) and isinstance(x.func, ast.Attribute) and isinstance(x.func.value, ast.Name) and x.func.value.id == selfname:
+                                        m_ = repo.find_method(fn.cls, x.func.attr)
+                                        if m_ is not None and m_.qualname not in seen:
+                                            seen.add(m_.qualname)
+                                            for f2 in repo.reachable([m_]):
+                                                for y in ast.walk(f2.node):
+                                                    if isinstance(y, ast.Attribute) and y.attr in GEOMETRY_ATTRS and isinstance(y.ctx, ast.Load):
+                                                        reads.append(y)
+                            if reads:
+                                problems.append((a, f"keeps a value computed from coordinates ('{ast.unparse(reads[0])[:40]}') in self.{cache} and refreshes it only when '{ast.unparse(n.test)[:50]}': after a vertex is moved the same object keeps answering for the old positions"))
+                            # (b) the cached container itself is returned
+                            for ret in ast.walk(fn.node):
+                                if isinstance(ret, ast.Return) and ret.value is not None:
+                                    v = ret.value
+                                    while isinstance(v, ast.Subscript):
+                                        v = v.value
+                                    if isinstance(v, ast.Attribute) and isinstance(v.value, ast.Name) and v.value.id == selfname and v.attr == cache:
+                                        problems.append((ret, f"returns its own cached container ('{ast.unparse(ret.value)[:40]}') instead of a copy: a caller that extends the result (inner = finder.find_core(True); inner.update(...)) changes what every later query returns"))
+        seen_msgs = set()
+        if not problems:
+            r.ok(fn, f"{fn.cls.name}.{fn.name}: no on-demand cache of coordinates, no cached container handed out", key=f"method:{fn.cls.name}.{fn.name}")
+        for i, (node, msg) in enumerate(problems):
+            if msg in seen_msgs:
+                continue
+            seen_msgs.add(msg)
+            r.bad(fn, f"{fn.qualname} {msg}", node, key=f"cache#{len(seen_msgs) - 1}")
+    return r
